@@ -3191,7 +3191,7 @@ func (dsc *dataStoreCommand) sort(sourceKeyName, byPattern, destKeyName string, 
 			val.sortByStr = val.data
 			if !alpha {
 				f64, parseErr := strconv.ParseFloat(val.data, 64)
-				if parseErr != nil {
+				if parseErr != nil || math.IsNaN(f64) {
 					output.data = respErrorString("ERR One or more scores can't be converted into double")
 					return
 				}
@@ -3213,7 +3213,7 @@ func (dsc *dataStoreCommand) sort(sourceKeyName, byPattern, destKeyName string, 
 					val.sortByStr = byVal
 					if !alpha {
 						f64, parseErr := strconv.ParseFloat(byVal, 64)
-						if parseErr != nil {
+						if parseErr != nil || math.IsNaN(f64) {
 							output.data = respErrorString("ERR One or more scores can't be converted into double")
 							return
 						}
